@@ -533,12 +533,100 @@ impl Check for UniformCheck {
     }
 }
 
+// ------------------------------------------------------------------------------------------------
+// large populations (compact cases, expanded into `Case` and decided by the same oracle)
+// ------------------------------------------------------------------------------------------------
+
+#[derive(Clone, Debug, Serialize, Deserialize)]
+pub struct LargeCase {
+    pub op: Op,
+    pub parents: u16,
+    pub offspring: u16,
+    pub seed: u64,
+    pub direct: bool,
+}
+
+pub struct LargeCheck;
+
+impl Check for LargeCheck {
+    type Case = LargeCase;
+    fn name(&self) -> String {
+        "C12/large-populations".into()
+    }
+    fn classes(&self) -> &'static [&'static str] {
+        &["mu >= combined size", "mu below 1% of the combined size", "combined size >= 4096", "MuPlusLambda", "RandomReplacement"]
+    }
+    fn oracle(&self, c: &LargeCase) -> Outcome {
+        let total = c.parents as usize + c.offspring as usize;
+        let mut cl = 0;
+        if let Op::MuPlusLambda(m) | Op::RandomReplacement(m) | Op::Generational(m) = c.op {
+            if m as usize >= total {
+                cl |= 1;
+            }
+            if (m as usize) * 100 < total && m >= 2 {
+                cl |= 2;
+            }
+        }
+        if total >= 4096 {
+            cl |= 4;
+        }
+        match c.op {
+            Op::MuPlusLambda(_) => cl |= 8,
+            Op::RandomReplacement(_) => cl |= 16,
+            _ => {}
+        }
+        let obj = |k: u64| -> Option<i8> { Some((((k.wrapping_mul(0x9E37_79B9_7F4A_7C15).wrapping_add(c.seed)) >> 29) % 7) as i8 - 3) };
+        let case = Case {
+            op: c.op.clone(),
+            below: if c.seed % 2 == 0 { vec![] } else { vec![vec![(60000, Some(1))]] },
+            parents: (0..c.parents).map(|k| (k, obj(k as u64))).collect(),
+            offspring: (0..c.offspring).map(|k| (c.parents + k, obj(c.parents as u64 + k as u64))).collect(),
+            seed: c.seed,
+            direct: c.direct,
+            ulps: Vec::new(),
+            tiny: false,
+            nest: 0,
+            prior: Vec::new(),
+            distractor: 0,
+            roomy: 0,
+        };
+        let mut ignored = 0u64;
+        let r = oracle(&case, &mut ignored).map_err(|f| {
+            let msg: String = f.msg.chars().take(160).chain(" ... ".chars()).chain(f.msg.chars().rev().take(500).collect::<Vec<_>>().into_iter().rev()).collect();
+            Failure::new(f.sig, format!("{c:?} (individual k: tag k, objective hashed from k and the seed into -3..=3): {msg}"))
+        });
+        Outcome::new(cl & 3 != 0, cl, r)
+    }
+}
+
+fn large_strategy() -> impl Strategy<Value = LargeCase> {
+    let sizes = prop_oneof![3 => (150u16..800, 150u16..800), 1 => (2000u16..3000, 2100u16..2600), 1 => (4096u16..4200, 0u16..3), 1 => (0u16..3, 4096u16..4200)];
+    (sizes, 0u8..10, any::<u64>(), any::<bool>(), 0u8..3).prop_map(|((np, no), pick, seed, direct, kind)| {
+        let total = np as u32 + no as u32;
+        let mu = match if kind == 1 && pick >= 3 { 9 } else { pick } {
+            0 => total,
+            1 => total + 1,
+            2 => u32::MAX,
+            3 => total - 1,
+            4 => total / 2,
+            5 => 1,
+            _ => 2 + (seed % 64) as u32 % (total / 100).max(1),
+        };
+        let op = match kind {
+            0 => Op::MuPlusLambda(mu),
+            1 => Op::RandomReplacement(mu),
+            _ => if seed % 3 == 0 { Op::Generational(mu) } else if seed % 3 == 1 { Op::Merge } else { Op::MuPlusLambda(mu) },
+        };
+        LargeCase { op, parents: np, offspring: no, seed, direct }
+    })
+}
+
 pub fn run_all(ctx: &mut Ctx, replay: Option<&Path>) {
     ctx.rule("case = (operator, mu, populations below, parents, offspring, seed, via Component::execute or Replacement::replace) over tagged individuals with ties, duplicates by value, unevaluated and +inf objectives, objective values 1-2 representable steps apart and values of magnitude 1e-17; the component also executed inside 1-3 nested scopes while the population stack lives outside them, after earlier calls of the same operator on other populations in the same state (incl. a directed family: second MuPlusLambda call on survivors that got worse in place), and with a best-so-far individual / counters present in the state; oracle: stack height -1 and populations below untouched, result is a sub-multiset of parents (+) offspring, content per operator (Merge/Generational/DiscardOffspring exact, MuPlusLambda = min(mu,total) individuals whose objective multiset is the mu smallest, RandomReplacement size (and, in a separate frequency check over many seeds, every individual surviving with frequency mu/total within a 6-sigma band), KeepBetterAtIndex index-wise strictly better with parent on ties, Err on unequal sizes); non-trivial = both populations non-empty with mu < total and a parent/offspring tie at the cut, or duplicates by value; distinct by case");
     ctx.assume("MuPlusLambda and KeepBetterAtIndex get evaluated individuals only (every caller evaluates first)");
     let k = ReplCheck;
     if let Some(p) = replay {
-        ctx.replay_file(&k, p);
+        let _ = ctx.replay_file(&k, p) || ctx.replay_file(&UniformCheck, p) || ctx.replay_file(&LargeCheck, p);
         return;
     }
     ctx.regressions(&k);
@@ -554,4 +642,7 @@ pub fn run_all(ctx: &mut Ctx, replay: Option<&Path>) {
         [(1u8, 1u8), (2, 2), (3, 1), (1, 5), (5, 5), (4, 12), (8, 2)].into_iter().flat_map(move |(a, b)| (1..a + b).map(move |mu| UniformCase { parents: a, offspring: b, mu, seeds, base_seed: base })),
     );
     ctx.random(&k, mpl_history_strategy(), ctx.tier.pick(20_000, 100_000));
+    let l = LargeCheck;
+    ctx.regressions(&l);
+    ctx.random(&l, large_strategy(), ctx.tier.pick(1500, 8000));
 }
